@@ -113,9 +113,17 @@ func (s *Store) persist(higher Snapshot, persistOptions StorePersistOptions) (
 		return nil, fmt.Errorf("store: can only persist segmentStack")
 	}
 
-	// If higher segment has no data, we're still clean, so just snapshot.
+	// If higher segment has no data, we're still clean, so just snapshot,
+	// unless a persisted child collection is no longer part of the higher
+	// snapshot, which means that its deletion still has to be persisted.
 	if ss.isEmpty() {
-		return s.Snapshot()
+		s.m.Lock()
+		childDeleted := s.footer.hasChildNotIn(ss)
+		s.m.Unlock()
+
+		if !childDeleted {
+			return s.Snapshot()
+		}
 	}
 
 	fref, file, err := s.startOrReuseFile()
@@ -215,6 +223,26 @@ func (s *Store) buildNewFooter(storeFooter *Footer, ss *segmentStack) *Footer {
 	// As a deleted Child collection does not feature in the source
 	// segmentStack, its corresponding Footer would simply get dropped.
 	return footer
+}
+
+// hasChildNotIn returns true when this footer, or one of its child
+// footers, has a child collection that does not exist (in the same
+// incarnation) in the given segmentStack.
+func (f *Footer) hasChildNotIn(ss *segmentStack) bool {
+	if f == nil {
+		return false
+	}
+
+	for cName, childFooter := range f.ChildFooters {
+		childStack, exists := ss.childSegStacks[cName]
+		if !exists ||
+			childFooter.incarNum != childStack.incarNum ||
+			childFooter.hasChildNotIn(childStack) {
+			return true
+		}
+	}
+
+	return false
 }
 
 // persistSegments will recursively write out all the segments of the
